@@ -100,7 +100,21 @@ def _final_params(case):
 def _apply_history(oc, case):
     """sample / edit / consume the SAME object; returns (program snapshots equal?, notes)"""
     notes = []
+    flake = None  # one Snowflake object that stays attached to `oc` across the edits
     for op in case["ops"]:
+        if op[0] == "reuseFlake":
+            try:
+                from ethz_snow.snowflake import Snowflake
+                if flake is None:
+                    flake = Snowflake(k={"int": 0, "ext": 0, "s0": 20}, N_vials=(1, 1, 1), dt=op[1], opcond=oc,
+                                      storeStates="all")
+                flake.run()
+                want = int(np.ceil(oc.t_tot / op[1])) + 1
+                if flake.X_T.shape[1] != want:
+                    notes.append(f"reuseFlake:columns {flake.X_T.shape[1]} != {want}")
+            except Exception as e:
+                notes.append("reuseFlake:" + core.exc_class(e))
+            continue
         if op[0] == "sample":
             before = copy.deepcopy(oc.holding)
             p = oc.tempProfile(op[1])
@@ -291,6 +305,11 @@ def predicates(case, impl):
     out = []
     if case.get("ops"):
         if not impl.get("raise"):
+            bad = [n for n in impl.get("history_notes", []) if n.startswith("reuseFlake:")]
+            if bad and _wf(_final_params(case)):
+                out.append(Failure(clause="consumers_in_range", key="consumers_in_range|Snowflake.run|reused-object",
+                                   detail="a Snowflake kept attached to the edited program could not step through "
+                                          f"the current profile: {bad[:2]}"))
             if impl.get("history_notes") and any(n.startswith("holding mutated") for n in impl["history_notes"]):
                 out.append(Failure(clause="profile_is_function_of_program", key="history|tempProfile|mutates-program",
                                    detail="tempProfile() changed the object's holding list"))
@@ -484,7 +503,8 @@ def _history(rng):
     dt = c["dt"]
     for _ in range(rng.randint(1, 4)):
         k = rng.choice(["sample", "sample", "set_end", "set_rate", "set_ttot", "set_hold_duration",
-                        "consumeFlake", "consume0D" if rng.random() < 0.15 else "sample"])
+                        "consumeFlake", "reuseFlake", "reuseFlake",
+                        "consume0D" if rng.random() < 0.15 else "sample"])
         if k == "sample":
             ops.append(["sample", rng.choice([dt, dt, 1, 0.1, 2 * dt])])
         elif k == "set_end":
@@ -498,11 +518,30 @@ def _history(rng):
                 ops.append(["set_hold_duration", rng.randint(0, 3), rng.choice([0, dt / 2, 3 * dt, 17.0])])
         elif k == "consumeFlake":
             ops.append(["consumeFlake", dt])
+        elif k == "reuseFlake":
+            ops.append(["reuseFlake", dt])
         else:
             ops.append(["consume0D"])
     if not any(o[0] == "sample" for o in ops):
         ops.insert(0, ["sample", dt])
+    if any(o[0] == "reuseFlake" for o in ops) and ops[-1][0] != "reuseFlake":
+        ops.append(["reuseFlake", dt])
     c["ops"] = ops
+    return c
+
+
+def _history_consumer(rng):
+    """a consumer object stays attached while the program gets LONGER: it must step to the new end"""
+    c = _structured(rng, small=True)
+    while c["rate"] == 0 or not (2 <= c["t_tot"] / c["dt"] <= 150):
+        c = _structured(rng, small=True)
+    c["kind"] = "history"
+    c.pop("flake", None)
+    dt = c["dt"]
+    grow = ["set_ttot", c["t_tot"] * rng.choice([1.3, 2.0, 3.1]) + rng.choice([0, dt / 3, dt])]
+    mid = rng.choice([[grow], [grow, ["set_rate", c["rate"] * 0.5]], [["sample", dt], grow],
+                      [grow, ["set_end", c["stop"] - 5]]])
+    c["ops"] = [["reuseFlake", dt]] + mid + [["reuseFlake", dt], ["sample", dt]]
     return c
 
 
@@ -510,6 +549,8 @@ def cases(rng, tier):
     n_struct, n_exact, n_mal = (1500, 600, 40) if tier == "quick" else (40000, 12000, 400)
     for _ in range(120 if tier == "quick" else 2500):
         yield _history(rng)
+    for _ in range(40 if tier == "quick" else 600):
+        yield _history_consumer(rng)
     for _ in range(n_struct):
         yield _structured(rng, small=(tier == "quick"))
     for _ in range(n_exact):
